@@ -161,6 +161,9 @@ pub fn run_seed(base: u64, property: &str, campaign: &str, idx: u64) -> u64 {
   mix(mix(mix(base, hash_str(property)), hash_str(campaign)), idx)
 }
 
+/// set by the determinism pre-check when the tree under test answers one case in two ways
+pub static SUT_NONDETERMINISTIC: AtomicBool = AtomicBool::new(false);
+
 pub fn run_check(spec: &CheckSpec, base_seed: u64, thorough: bool, threads: usize, runs_override: Option<u64>, write_evidence: bool) -> CheckReport {
   let t0 = Instant::now();
   let known = match load_known_findings(&format!("{}/known_findings.json", verif_dir())) { Ok(k) => k, Err(e) => { eprintln!("harness error: {}", e); return CheckReport { violations: 0, exit: 2 }; } };
@@ -283,6 +286,11 @@ pub fn run_check(spec: &CheckSpec, base_seed: u64, thorough: bool, threads: usiz
     if first_failure.is_some() { break; }
   }
 
+  let mism = all_acc.counters.get("runs_not_replaying_exactly").cloned().unwrap_or(0);
+  if mism > 0 {
+    SUT_NONDETERMINISTIC.store(true, Ordering::Relaxed);
+    println!("warning: {} run(s) did not replay exactly (same case, same decisions, different history): the tree under test is not deterministic; every run is judged on what it did, exact replay is not guaranteed", mism);
+  }
   for (k, n) in &known_matched { println!("KNOWN-FINDING: property={} {} (matched in {} runs)", spec.property, k, n); }
   for (k, v) in &all_acc.probes { if *v == 0 { eprintln!("warning: probe '{}' was never hit in this run of {}", k, spec.property); } }
 
@@ -323,6 +331,7 @@ pub fn run_check(spec: &CheckSpec, base_seed: u64, thorough: bool, threads: usiz
     cov.insert("known_findings_matched".into(), json!(known_matched));
     cov.insert("sut_panics".into(), json!(sut_panics));
     cov.insert("threads".into(), json!(threads));
+    cov.insert("system_under_test_deterministic".into(), json!(!SUT_NONDETERMINISTIC.load(Ordering::Relaxed)));
     cov.insert("run_digest".into(), json!(format!("{:016x}", total_digest)));
     if let Some(n) = &spec.exhaustive_note { cov.insert("exhaustive_part".into(), json!(n)); }
     let ev = json!({
